@@ -19,12 +19,15 @@ NAMES = ["rating", "playcount", "a b", "é", "x_y", "0"]
 TS = ["2024-01-02T03:04:05Z", "1970-01-01T00:00:00Z", "2038-12-28T23:59:59Z", "0001-02-03T00:00:00Z"]
 BOUND = {"u8": [0, 1, 100, U8], "u32": [0, 1, U32], "u64": [0, 1, 2 ** 32, U64], "usize": [0, 1, U64],
          "secs": [0, 1, 5, 4194303], "ms": [0, 1, 500, 999, 1000, 123456, 4194303999]}
-BAD_UINT = ["", "-1", "abc", "1.5", " 1", "1 ", "0x10", "١", "9" * 400]
+BAD_UINT = ["", "-1", "abc", "1.5", " 1", "1 ", "0x10", "١", "9" * 400, "1_0", "1e2", "+", "-", "++1", "1+", "１", "0b1", "1\t"]
+# texts that are not numbers although each half of them might look like one to a "fast path"
+BAD_FLOAT = ["12.+34", "12.-34", "+12.+34", "1.2.3", "1..2", "1. 5", "1 .5", "1.5 ", "1_000.0", "0x1p3", "1.5f", "1,500", "٣.٥", "1.0e", "e5",
+             "--1", "+-1", "1.+00", "0.-00", ".+5", "12.３４", "12.34\t", "\t12.34"]
 BAD = {"u8": BAD_UINT + [str(U8 + 1)], "u32": BAD_UINT + [str(U32 + 1)], "u64": BAD_UINT + [str(U64 + 1)],
        "usize": BAD_UINT + [str(U64 + 1)], "bool": ["", "2", "true", "01", "yes", "-1"],
        "state": ["", "PLAY", "playing", "paused", "stopped", "0"], "single": ["", "2", "Oneshot", "on", "true"],
-       "ms": ["", "abc", "-1", "nan", "inf", "-inf", "1e300", str(2 ** 64), "1,5", "1:5", " 1"],
-       "secs": ["", "abc", "-1", "NaN", "infinity", str(2 ** 64)]}
+       "ms": ["", "abc", "-1", "nan", "inf", "-inf", "1e300", str(2 ** 64), "1,5", "1:5", " 1"] + BAD_FLOAT,
+       "secs": ["", "abc", "-1", "NaN", "infinity", str(2 ** 64)] + BAD_FLOAT}
 UNITS = [["volume"], ["partition"], ["mixrampdb"], ["xfade"], ["mixrampdelay"], ["song", "songid"], ["time"], ["elapsed"],
          ["bitrate"], ["duration"], ["audio"], ["updating_db"], ["error"], ["nextsong", "nextsongid"]]
 KIND = {f: k for f, k, _ in t.STATUS_FIELDS}
@@ -226,7 +229,8 @@ def gen(ctx):
             "ok messages [" + ",".join(f"{hx(c)}:{hx(m_)}" for c, m_ in ms) + "]")
         tt = [rng.choice(tags)[1] for _ in range(rng.choice([0, 1, 5, 31]))]
         add("tagtypes", "GetEnabledTagTypes", None, [("tagtype", n_) for n_ in tt], "ok tags [" + ",".join("/" + hx(n_) for n_ in tt) + "]")
-    for bad in ["", "a b", "é", "x:y"]:
+    import mpdgen as _g
+    for bad in ["", "a b", "é", "x:y", "Künstler", "Interprète", "日本", "Artist1", "1", "a.b"] + ["Art" + ch for ch in _g.TRICKY_CHARS] + list(_g.TRICKY_CHARS):
         add("tagtypes-domain", "GetEnabledTagTypes", None, [("tagtype", "Artist"), ("tagtype", bad)], "err invalid tagtype")
     for v in BOUND["u64"]:
         for ident, field in (("Update", "updating_db"), ("Rescan", "updating_db"), ("Add", "Id")):
